@@ -30,6 +30,9 @@ var (
 	errDAGFileEmpty       = errors.New("dagFile is empty")
 
 	rTimestamp = regexp.MustCompile(`2\d{7}.\d{2}:\d{2}:\d{2}`)
+	// rTimestampMs matches the start time with milliseconds in the name of a
+	// run file: <prefix>.<yyyymmdd.hh:mm:ss.mmm>.<request id>[_c].dat
+	rTimestampMs = regexp.MustCompile(`(2\d{7}.\d{2}:\d{2}:\d{2}\.\d{3})\.[^/]*\.dat$`)
 )
 
 const (
@@ -366,6 +369,12 @@ func filterLatest(files []string, n int) []string {
 }
 
 func timestamp(file string) string {
+	// Runs started within the same second must still be ordered by start
+	// time, and a DAG name that looks like a timestamp must not be mistaken
+	// for one: take the millisecond timestamp that ends the file name.
+	if m := rTimestampMs.FindStringSubmatch(file); m != nil {
+		return m[1]
+	}
 	return rTimestamp.FindString(file)
 }
 
